@@ -203,6 +203,11 @@ def reset_and_init(vc):
     F['cache'] = symbolic_array('c', (taps * B,))
     o2 = vc.call(PFB + '._reset_cache', o.value)
     vc.ensure('C08/_reset_cache/post/cache-cleared', And(o2.ok, F['cache'] is None))
+    # a second filterbank of the same geometry but another window gets ITS window (no state shared between objects)
+    o4 = vc.run(lambda: vc.interp.call(cls, [], dict(num_taps=taps, num_branches=B, window_fn='hann')))
+    fw2 = L.scipy_firwin(vc.interp, taps * B, window='hann')
+    vc.ensure('C08/__init__/post/window-depends-only-on-own-arguments',
+              And(o4.ok, Implies(And(q >= 0, q < taps * B), eq(o4.value.fields['window'].at((q,)), fw2.at((q,)) * (taps * B)))))
     # separate objects do not share a cache
     o3 = vc.run(lambda: vc.interp.call(cls, [], dict(num_taps=taps, num_branches=B)))
     o3.value.fields['cache'] = symbolic_array('c3', (taps * B,))
